@@ -195,6 +195,12 @@ impl Vm {
   pub(super) fn queue_blocked_fiber(&mut self, mut waiter: Ref<ChannelWaiter>) {
     match waiter.get_waiter_mut::<Ref<Fiber>>() {
       Some(fiber) => {
+        // several waiters may name one fiber. The running fiber is not
+        // resumed and a fiber is put into the queue once
+        if *fiber == self.fiber || self.fiber_queue.contains(fiber) {
+          return;
+        }
+
         fiber.unblock();
         self.fiber_queue.push_back(*fiber)
       },
